@@ -6,6 +6,7 @@ CONSTANTS
   MaxWrites = 6
   MaxPersists = 3
   AllowSync = TRUE
+  AllowFail = TRUE
   AllowDelete = TRUE
   BugNoTemp = FALSE
   Depth = 16
